@@ -37,6 +37,9 @@ type E2EClient struct {
 	// Transport: "stream" | "bridge"
 	Transport string    `json:"transport"`
 	Calls     []E2ECall `json:"calls"`
+	// Window > 1: up to that many calls are outstanding (Send issued, replies not
+	// yet received) at any time; replies are received in call order.
+	Window int `json:"window,omitempty"`
 	// StartUs: simulated pause before dialling (stream transport; the scenario
 	// guarantees that the service is still serving then: another connection is open)
 	StartUs int `json:"start_us,omitempty"`
@@ -61,6 +64,9 @@ type E2ECall struct {
 	// script starts with a longer sleep); the receive is then repeated with a live
 	// context and must return the reply intact.
 	RetryDeadlineUs int `json:"retry_deadline_us,omitempty"`
+	// SendCtxEnds (send only): Send runs under a context of its own that is
+	// cancelled as soon as Send has returned; the receives run under theirs.
+	SendCtxEnds bool `json:"send_ctx_ends,omitempty"`
 }
 
 func (s *E2EScenario) Cfg() sim.Config { return s.Config }
@@ -189,6 +195,29 @@ func (s *E2EScenario) Setup(k *sim.Kernel) {
 			sim.Rec("c.dial", sf(`{"client":%d,"conn":%d}`, ci, sim.ConnID(ep)))
 			ctx := context.Background()
 			expected := s.expectedReads(cl)
+			type pending struct {
+				i    int
+				recv func(context.Context, interface{}) (uint64, error)
+				ctx  context.Context
+			}
+			var queue []pending
+			// drain receives the replies of the oldest outstanding call; false: the connection is broken
+			drain := func() bool {
+				p := queue[0]
+				queue = queue[1:]
+				for j := 0; j < expected[p.i]; j++ {
+					var out json.RawMessage
+					flags, err := p.recv(p.ctx, &out)
+					r := e2eReply{Client: ci, Call: p.i, J: j, Flags: flags, Out: string(out)}
+					describeClientErr(err, &r)
+					sim.Rec("c.reply", mustJSON(r))
+					if strings.HasPrefix(r.Err, "other") {
+						return false
+					}
+				}
+				return true
+			}
+			broken := false
 			for i, call := range cl.Calls {
 				if call.PauseUs > 0 {
 					sim.Sleep(time.Duration(call.PauseUs) * time.Microsecond)
@@ -198,41 +227,53 @@ func (s *E2EScenario) Setup(k *sim.Kernel) {
 					ctx = sim.NewCtx(time.Duration(call.DeadlineUs) * time.Microsecond)
 				}
 				if call.Via == "call" {
+					for len(queue) > 0 && !broken {
+						broken = !drain()
+					}
+					if broken {
+						break
+					}
 					var out json.RawMessage
 					err := conn.Call(ctx, call.Method, rawOrNil(call.Params), &out)
 					r := e2eReply{Client: ci, Call: i, Out: string(out)}
 					describeClientErr(err, &r)
 					sim.Rec("c.reply", mustJSON(r))
 					if strings.HasPrefix(r.Err, "other") {
+						broken = true
 						break
 					}
 					continue
 				}
-				recv, err := conn.Send(ctx, call.Method, rawOrNil(call.Params), call.Flags)
+				sctx := context.Context(ctx)
+				var ends *sim.DeadlineCtx
+				if call.SendCtxEnds {
+					ends = sim.NewCtx(0)
+					sctx = ends
+				}
+				recv, err := conn.Send(sctx, call.Method, rawOrNil(call.Params), call.Flags)
+				if ends != nil {
+					ends.Cancel()
+				}
 				if err != nil {
 					sim.Rec("c.sendfail", sf(`{"client":%d,"call":%d}`, ci, i))
+					broken = true
 					break
 				}
-				broken := false
-				if call.RetryDeadlineUs > 0 && expected[i] > 0 {
+				if call.RetryDeadlineUs > 0 && expected[i] > 0 && len(queue) == 0 {
 					var out json.RawMessage
 					_, err := recv(sim.NewCtx(time.Duration(call.RetryDeadlineUs)*time.Microsecond), &out)
 					sim.Rec("c.retry", sf(`{"client":%d,"call":%d,"err":%q}`, ci, i, errClass(err)))
 				}
-				for j := 0; j < expected[i]; j++ {
-					var out json.RawMessage
-					flags, err := recv(ctx, &out)
-					r := e2eReply{Client: ci, Call: i, J: j, Flags: flags, Out: string(out)}
-					describeClientErr(err, &r)
-					sim.Rec("c.reply", mustJSON(r))
-					if strings.HasPrefix(r.Err, "other") {
-						broken = true
-						break
-					}
+				queue = append(queue, pending{i, recv, ctx})
+				for len(queue) > 0 && (len(queue) >= cl.Window || cl.Window <= 1) && !broken {
+					broken = !drain()
 				}
 				if broken {
 					break
 				}
+			}
+			for len(queue) > 0 && !broken {
+				broken = !drain()
 			}
 			sim.Rec("c.done", sp(ci))
 			sim.Await(sim.Cond{Kind: sim.CondQuiescent})
@@ -696,6 +737,41 @@ func genE2E(g *Gen, prop string, params func() string, script func(more bool) Sc
 			s.Clients[i].StartUs = g.IntN(3600e6)
 		}
 	}
+	// pipelining: two or three calls outstanding on a connection (small messages
+	// only: nobody reads replies while the requests are being written)
+	for ci := range s.Clients {
+		if g.Pct(12) {
+			cl := &s.Clients[ci]
+			small, total := true, 0
+			for _, c := range cl.Calls {
+				total += len(c.Params) + 100
+				if c.RetryDeadlineUs > 0 {
+					small = false
+				}
+				for _, a := range s.Scripts[c.Cid].Actions {
+					total += len(a.Params) + 100
+				}
+			}
+			// (with more in flight than the pipes hold, a client that writes requests
+			// while nobody reads the replies deadlocks with the service by design)
+			if small && total < 16000 {
+				cl.Window = 2 + g.IntN(2)
+				s.Config.PipeCap = 0
+				// (a reply that waits in the window while the client pauses for hours
+				// would outlive the deadline of its own call)
+				for i := range cl.Calls {
+					cl.Calls[i].PauseUs, cl.Calls[i].DeadlineUs = 0, 0
+				}
+			}
+		}
+	}
+	for ci := range s.Clients {
+		for i := range s.Clients[ci].Calls {
+			if c := &s.Clients[ci].Calls[i]; c.Via == "send" && c.RetryDeadlineUs == 0 && g.Pct(8) {
+				c.SendCtxEnds = true
+			}
+		}
+	}
 	if prop == "C03" && g.Pct(10) {
 		// the empty object is an object too; the dispatcher finds no "cid" in it
 		// and runs script -1 (at most one such call per connection)
@@ -917,6 +993,10 @@ func genC02(seed uint64, tier string) Scenario {
 			for i, n := 0, g.IntN(4); i < n; i++ {
 				sc.Actions = append(sc.Actions, Action{Op: "reply", Continues: true, Params: params()})
 			}
+		}
+		if g.Pct(6) {
+			// parameters that are not one JSON document: the attempt is refused, nothing is written
+			sc.Actions = append(sc.Actions, Action{Op: "reply", Params: g.Pick("{\"a\":\"x\x00y\"}", `{"a":1`, `{"a":1}{"b":2}`, "{\"a\":1}\x00", `{"a":}`)})
 		}
 		if g.Pct(15) {
 			sc.Actions = append(sc.Actions, Action{Op: "error", Name: "a.b." + g.Pick("E", "Failed"), Params: params()})
